@@ -297,9 +297,7 @@ func mergeGateways(gateways []gatewayWithInstances, proxy *Proxy, ps *PushContex
 					if tlsHostsByPort[resolvedPort] == nil {
 						tlsHostsByPort[resolvedPort] = map[string]string{}
 					}
-					// Compare what becomes the SNI match (GetSNIHostsForServer), not the raw hosts: "ns1/*" and
-					// "ns2/*" (or "ns1/foo.com" and "ns2/foo.com") are different strings but the same SNI.
-					if duplicateHosts := CheckDuplicates(GetSNIHostsForServer(s), s.Bind, tlsHostsByPort[resolvedPort]); len(duplicateHosts) != 0 {
+					if duplicateHosts := CheckDuplicates(s.Hosts, s.Bind, tlsHostsByPort[resolvedPort]); len(duplicateHosts) != 0 {
 						log.Warnf("skipping server on gateway %s, duplicate host names: %v", gatewayName, duplicateHosts)
 						RecordRejectedConfig(gatewayName)
 						continue
